@@ -25,7 +25,7 @@ fn us(r: &mut Xo) -> f64 {
 }
 
 /// small hand-shaped machines that make blocks overlap, paddings bypass and timers tie
-fn directed_machine(r: &mut Xo, prop: u8) -> Machine {
+pub fn directed_machine(r: &mut Xo, prop: u8) -> Machine {
     let trig = |r: &mut Xo| *r.pick(&[Event::NormalSent, Event::NormalRecv, Event::TunnelSent, Event::TunnelRecv, Event::BlockingBegin, Event::BlockingEnd, Event::PaddingSent, Event::TimerBegin, Event::TimerEnd]);
     let action = |r: &mut Xo| -> Action {
         let k = match prop {
